@@ -137,14 +137,17 @@ TraceAccepted == (TLCGet("stats").diameter >= Len(Trace) + 1)
 (*   remove() is allowed only for temporary files (no name given) and for  *)
 (*   files opened with "overwrite".                                        *)
 (***************************************************************************)
+\* kinds of pre-existing file: "no" (missing), "complete" (a process tensor closed normally), "flagged" (an HDF5 file
+\* whose writing flag is up: the leftover of a writer that ended without closing), "garbage" (not an HDF5 file at all)
+ExistingKinds == {"no", "complete", "flagged", "garbage"}
 ModeOutcome(mode, existing, named) ==
-    [ opens   |-> CASE mode = "write" -> ~existing
+    [ opens   |-> CASE mode = "write" -> existing = "no"
                     [] mode = "overwrite" -> TRUE
-                    [] mode = "read" -> existing,
-      intact  |-> (mode # "overwrite"),           \* the pre-existing file keeps its content
+                    [] mode = "read" -> existing \in {"complete", "flagged"},     \* "flagged" opens with the warning
+      intact  |-> (mode # "overwrite"),           \* the pre-existing file keeps its content, whatever it is
       removable |-> (mode = "overwrite" \/ (mode = "write" /\ ~named)) ]
 ModeTable == { [mode |-> mo, existing |-> ex, named |-> nm, out |-> ModeOutcome(mo, ex, nm)] :
-                 mo \in {"write", "overwrite", "read"}, ex \in BOOLEAN, nm \in BOOLEAN }
+                 mo \in {"write", "overwrite", "read"}, ex \in ExistingKinds, nm \in BOOLEAN }
 SetToSeq(S) == LET RECURSIVE F(_) F(T) == IF T = {} THEN << >> ELSE
                     LET m == CHOOSE x \in T : TRUE IN << m >> \o F(T \ {m}) IN F(S)
 
